@@ -40,7 +40,10 @@ async function run(code, withHooks) {
     }
     out = 'ok ' + show(v);
   } catch (e) { out = 'throw ' + (e && e.constructor ? e.constructor.name : typeof e); }
-  return { out, log, bad };
+  // names the program left on the global object (an undeclared injected temporary shows up here: node's vm accepts the
+  // assignment even in strict mode)
+  const globals = Object.keys(ctx).filter((k) => !['__log', '_ddiast', 'setTimeout', 'Promise'].includes(k)).sort();
+  return { out, log, bad, globals };
 }
 // mode "prologue": the rewritten code (which starts with the file prologue) is run (1) in a context where the tracer has already
 // installed its hook object: that very object must still be installed afterwards and its hooks must have been called;
@@ -72,7 +75,8 @@ const r = await run(fs.readFileSync(rewFile, 'utf8'), true);
 if (mode === 'hooks') {
   console.log(r.bad.length ? 'HOOK-ARGS-WRONG ' + r.bad.join(' | ') : 'HOOK-ARGS-OK');
 } else {
-  const same = o.out === r.out && show(o.log) === show(r.log);
-  console.log((same ? 'EXEC-SAME ' : 'EXEC-DIFFERS ') + 'original: ' + o.out + ' log=' + show(o.log) + ' rewritten: ' + r.out + ' log=' + show(r.log));
+  const sameGlobals = show(o.globals) === show(r.globals);
+  const same = o.out === r.out && show(o.log) === show(r.log) && sameGlobals;
+  console.log((same ? 'EXEC-SAME ' : 'EXEC-DIFFERS ') + 'original: ' + o.out + ' log=' + show(o.log) + ' rewritten: ' + r.out + ' log=' + show(r.log) + (sameGlobals ? '' : ' globals: ' + show(o.globals) + ' vs ' + show(r.globals)));
 }
 })();
